@@ -279,7 +279,12 @@ func c15(c *core.Ctx, r *core.Report) {
 				}
 				viaCoalesce := false
 				u, ok := e.Translate(st.Val).(*ssa.UnOp)
-				if hc, isCall := st.Val.(*ssa.Call); isCall && e.Frame.Parent == nil {
+				hc, isCall := st.Val.(*ssa.Call)
+				if ex, isEx := st.Val.(*ssa.Extract); isEx && ex.Index == 0 {
+					// `s.F, err = requiredField(s.F, defaults.G, …)`
+					hc, isCall = ex.Tuple.(*ssa.Call)
+				}
+				if isCall && e.Frame.Parent == nil {
 					// `s.F = orDefault(s.F, defaults.G, fallback)`: a coalescing helper preferring the stage's own value, then
 					// the default, then a fresh value, is the inheritance block in one expression
 					cs := coalesceOf(an.Callee(hc))
